@@ -1330,14 +1330,17 @@ class UTPM(Ring, RawAlgorithmsMixIn):
 
         else:
 
-            if axis < 0:
-                a = x.data.ndim + axis
-
-            else:
-                a = axis + 2
-
+            # several axes, as in numpy.sum(x_0, axis=(0,2)): UTPM.sum accepts them
+            axes = axis if isinstance(axis, tuple) else (axis,)
             shp = list(x.data.shape)
-            shp[a] = 1
+            for k in axes:
+                if k < 0:
+                    a = x.data.ndim + int(k)
+
+                else:
+                    a = int(k) + 2
+
+                shp[a] = 1
             tmp = ybar.data.reshape(shp)
             xbar.data += tmp
 
